@@ -632,6 +632,10 @@ func (c *fileCtx) renderSet(s *Set) {
 	for _, m := range s.Members {
 		ms = append(ms, c.refExpr(m))
 	}
+	if s.Grouped {
+		c.pf("var (\n\tgroupedBefore%s = 1\n\t%s = %s.NewSet(%s)\n\tgroupedAfter%s = \"x\"\n)\n\n", s.Name, s.Name, c.wire(), strings.Join(ms, ", "), s.Name)
+		return
+	}
 	if len(ms) <= 2 {
 		c.pf("var %s = %s.NewSet(%s)\n\n", s.Name, c.wire(), strings.Join(ms, ", "))
 		return
